@@ -34,7 +34,9 @@ contract(CMx + 'calinski_harabasz_index', props=['C17', 'C19'],
          requires=["wf(model)", "len(model.clusters) >= 2", "stacked_training_data.shape[0] > len(model.clusters)",
                    "len(model._point_labels) == stacked_training_data.shape[0]",
                    "forall(0, len(model.clusters), lambda k: not isnone(model.clusters[k].stacked_data_mean) and "
-                   "model.clusters[k].stacked_data_mean.shape[0] == " + _NWc + " and len(model.clusters[k]._member_points) >= 1)"],
+                   "model.clusters[k].stacked_data_mean.shape[0] == " + _NWc + ")",
+                   # C17 is stated for runs in which every cluster is non-empty
+                   ("restricts:every-cluster-non-empty", "forall(0, len(model.clusters), lambda k: len(model.clusters[k]._member_points) >= 1)")],
          ghost={'numpy_float_division': True,    # np.float64 / 0 gives inf/nan, not ZeroDivisionError
                 'returns': dict(NUM='numerator', DEN='denominator', GC='global_center'),
                 'return_kinds': dict(NUM='arr2[real]', DEN='arr2[real]', GC='real'),
